@@ -289,6 +289,29 @@ def run(ctx):
                func=ap_.qual, file=ap_.module.rel, node=n_, detail={"suspension_points": dirty},
                fail=f"`{norm(n_)[:50]}` reads the requested state only after `{dirty[0] if dirty else ''}`: responses processed during that await (an unsolicited state "
                     "report, a concurrent refresh) overwrite the attributes first, and the command encodes the unit's old state instead of the requested one")
+    # ... and apply() itself leaves the requested state alone: it stores none of the attributes it reads into the command (only the setters and
+    # the response handlers do).  A field switched off "for the duration of" an await and restored afterwards is wrong in every command a
+    # concurrent apply() builds meanwhile, and stays wrong when the await is cancelled.
+    read_attrs = set()
+    for n_ in sec:
+        v_ = getattr(n_, "value", None)
+        if v_ is not None:
+            read_attrs |= {x.attr for x in ast.walk(v_) if isinstance(x, ast.Attribute) and isinstance(x.value, ast.Name) and x.value.id == ap_.params[0] and x.attr.startswith("_")}
+    own_stores = []
+    for f_ in _wh(prog, ap_):
+        for n in ast.walk(f_.node):
+            tg = n.targets if isinstance(n, ast.Assign) else ([n.target] if isinstance(n, (ast.AugAssign, ast.AnnAssign)) else [])
+            flat = []
+            for t in tg:
+                flat += list(t.elts) if isinstance(t, (ast.Tuple, ast.List)) else [t]
+            for t in flat:
+                if isinstance(t, ast.Attribute) and isinstance(t.value, ast.Name) and t.value.id == f_.params[0] and t.attr in read_attrs:
+                    own_stores.append((f_, n, t.attr))
+    ctx.count("requested_state_attributes", len(read_attrs))
+    ctx.ob("C10.g", ap_.qual, not own_stores, "apply() stores none of the attributes it encodes (the requested state is written by the setters and the response handlers only)",
+           func=ap_.qual, file=ap_.module.rel, node=own_stores[0][1] if own_stores else None,
+           fail=(f"apply() itself stores self.{own_stores[0][2]} (`{norm(own_stores[0][1])[:60]}`): a command built while that value is in place - by a concurrent "
+                 "apply(), or by every later one when the await in between is cancelled - encodes it instead of the requested state") if own_stores else "")
     ctx.require_min("snapshot_statements", 1)
     from ._chains import transparent_deprecated
     transparent_deprecated(ctx, "C10.f")          # (the old setting names are the same setters)
